@@ -15,6 +15,7 @@ pub mod c16;
 pub mod c17;
 pub mod c18;
 pub mod c19;
+pub mod c20;
 
 use crate::run::Cfg;
 
@@ -37,6 +38,7 @@ pub fn dispatch(cfg: &Cfg) -> i32 {
         "C17" => c17::run(cfg),
         "C18" => c18::run(cfg),
         "C19" => c19::run(cfg),
+        "C20" => c20::run(cfg),
         other => {
             eprintln!("unknown property {other}");
             2
